@@ -30,7 +30,7 @@ DEPTHS_QUICK = [1, 2, 3, 7, None, 9, 19, 20, 21, 22, 23, 24, 40]
 
 def plan(tier, seed):
   return {'nshards': 16, 'timeout_s': 5400 if tier == 'thorough' else 1200,
-          'params': {'n_programs': 400 if tier == 'thorough' else 26}}
+          'params': {'n_programs': 180 if tier == 'thorough' else 26}}
 
 
 def rule(pred, args, body=None, value=None, distinct=False):
